@@ -31,12 +31,18 @@ def space(tier):
             spaces.ConfigDocSpace(spaces.block_space("rule", 2), singles),
             spaces.ConfigDocSpace(spaces.block_space("core", 4), ["default", "all"]),
             spaces.ConfigDocSpace(spaces.block_space("wide", 2), ["default", "all"] + singles),
+            spaces.ConfigDocSpace(spaces.ProductSpace("B(mli,4)", spaces.SIGMA_MLI, 4), ["default", "all"]),
+            spaces.ConfigDocSpace(spaces.inline_wide_space(3, (0,))[0], ["default", "all"]),
         ]
     else:
         parts = [
-            spaces.ConfigDocSpace(spaces.block_space("rule", 2), ["default", "all"] + singles),
+            spaces.ConfigDocSpace(spaces.block_space("rule", 2), ["default", "all"]),
+            spaces.ConfigDocSpace(spaces.block_space("rule", 1), singles),
+            spaces.ConfigDocSpace(spaces.block_space("wide", 1), singles),
             spaces.ConfigDocSpace(spaces.block_space("core", 3), ["default", "all"]),
             spaces.ConfigDocSpace(spaces.block_space("wide", 2), ["default", "all"]),
+            spaces.ConfigDocSpace(spaces.ProductSpace("B(mli,3)", spaces.SIGMA_MLI, 3), ["default", "all"]),
+            spaces.ConfigDocSpace(spaces.inline_wide_space(2, (0,))[0], ["default", "all"]),
         ]
     return spaces.UnionSpace(f"scan-{tier}", parts)
 
